@@ -1959,6 +1959,16 @@ class Method:
         )
         answer.extend(types)
 
+        # A flattened map field is annotated with its value type, which may
+        # reside in a different module than the map entry.
+        if not recursive:
+            answer.extend(
+                f.type.fields["value"].type
+                for f in self.flattened_fields.values()
+                if f.map
+                and (f.type.fields["value"].message or f.type.fields["value"].enum)
+            )
+
         if not self.void:
             answer.append(self.client_output)
             answer.extend(self.client_output.field_types)
